@@ -21,7 +21,7 @@ def sc_names(src):
     return [s["name"] for s in src["scs"]]
 
 
-def render_rules(src, posix=False, use_scopes=False, xseed=None):
+def render_rules(src, posix=False, use_scopes=False, xseed=None, auto=()):
     """section-2 text (list of lines) for the rule set; actions are VACT(k)."""
     names = sc_names(src)
     defnames = ["D%d" % (i + 1) for i in range(len(src.get("defs", [])))]
@@ -34,6 +34,7 @@ def render_rules(src, posix=False, use_scopes=False, xseed=None):
         if scs == [0]: return "<*>"
         return "<" + ",".join(names[s - 1] for s in scs) + ">"
 
+    done_auto = []
     for kind, k in layout:
         if kind == "rule":
             r = src["rules"][k - 1]
@@ -45,6 +46,10 @@ def render_rules(src, posix=False, use_scopes=False, xseed=None):
             if r["bol"]:
                 pat = "^" + pat
             act = r.get("action") or ("{ VACT(%d) }" % k)
+            # "auto": the feature is not requested by %option; flex has to find its use in the action text
+            if auto and not r.get("action") and not r.get("bar") and not done_auto:
+                act = "{ VACT(%d) if (vnever) { %s } }" % (k, " ".join({"reject": "REJECT;", "yymore": "yymore();"}[a] for a in auto))
+                done_auto.append(1)
             if r.get("bar"): act = "|"          # same action as the next rule
             if use_scopes and r["scs"] and r["scs"] != [0]:
                 lines.append("%s{" % prefix(r["scs"]))
@@ -92,6 +97,7 @@ def emit_l(src, cfg):
     for o in ("reject", "yymore", "stack", "yylineno"):
         # True -> option, "no" -> explicit negation, False/None -> leave to flex
         if c[o] == "no": opts.append("no" + o)
+        elif c[o] == "auto": pass
         elif c[o]: opts.append(o)
     if c["array"]: opts.append("array")
     if c["posix"]: opts.append("posix-compat")
@@ -130,7 +136,7 @@ def emit_l(src, cfg):
     out.append("%}")
     out += render_defs(src, c["posix"])
     out.append("%%")
-    out += render_rules(src, c["posix"], c["scopes"], c.get("xseed"))
+    out += render_rules(src, c["posix"], c["scopes"], c.get("xseed"), auto=[o for o in ("reject", "yymore") if c[o] == "auto"])
     out.append("%%")
     out.append(tmpl)
     return "\n".join(out) + "\n"
